@@ -128,14 +128,26 @@ def build_definitions():
             defs.append(core.Definition(aname, PARAMS, tr(expr)))
             reals[aname] = (expr, psyms)
             state["cos"] = None
-    _write_table(table)
+    from tools.search import C19_hardening as hard
+
+    requests, dpd_bad = hard.dpd_requests()
+    idx_bad = hard.index_type_checks()
+    _write_table(table, requests)
     kinds = {f"{fam}{''.join(map(str, idx))}": (ent[0] if ent[0] != "err" else ent[1])
              for (fam, idx), ent in table.items()}
-    facts = {"kinds": kinds}
+    facts = {
+        "kinds": kinds,
+        # helicity/align/dpd.py: requests exactly (rotated, aligned, reference) for every Wigner d, registers the angle
+        # under its own symbol, and every requested tuple is one for which an angle is defined
+        "dpd_requests_consistent": not dpd_bad,
+        "dpd_requests_in_domain": all(_domain("zeta", r[1:]) for r in requests) and len(requests) == 36,
+        # indices as sympy.Integer / numpy.int64, repeated calls in another order: same outcome as with int
+        "index_types_and_call_order_irrelevant": not idx_bad,
+    }
     return defs, reals, facts
 
 
-def _write_table(table):
+def _write_table(table, requests=()):
     """Gen/C19Table.lean: the case table as data + index-dispatch functions onto the generated
     angle definitions (imports Gen/C19)."""
     hashes = common.source_blob_hashes(SOURCES)
@@ -181,6 +193,12 @@ def _write_table(table):
                 out.append(f"  | {pats(idx)} => some ({_name(cpre, idx)} {args})")
         out.append("  | " + ", ".join(["_"] * arity) + " => none")
         out.append("")
+    out.append("/-- (reference subsystem, rotated state, aligned subsystem, reference as passed): the calls of")
+    out.append("`formulate_zeta_angle` that `helicity/align/dpd.py` really makes, recorded by driving its Wigner-d")
+    out.append("generator for reference 1..3, rotated state 0..3, aligned subsystem 1..3 -/")
+    out.append("def dpdRequests : List (Nat × Nat × Nat × Nat) :=")
+    out.append("  [" + ", ".join(f"({a}, {b}, {c}, {d})" for a, b, c, d in requests) + "]")
+    out.append("")
     out.append("end Ampverif.Gen.C19")
     common.write_if_changed(common.LEAN / "Ampverif/Gen/C19Table.lean", "\n".join(out) + "\n")
 
@@ -662,6 +680,18 @@ def search(chk: common.Check, rng, n_events: int):
     run(MP, n_mp, True)
     run(MP, max(6, n_mp // 3), False)
     chk.info("oracle", stats)
+    # --- further clauses (notes/HARDENING.md): exact rational events, substitution of numbers and symbols,
+    #     float64 accuracy, the tuples dpd.py requests, the definitions inside a real aligned model
+    from tools.search import C19_hardening as hard
+
+    thorough = n_events >= 2000
+    hrng = common.rng_for("C19", chk.seed, "hardening")
+    bad += hard.index_type_checks()
+    bad += hard.dpd_requests()[1]
+    bad += hard.exact_checks(chk, hrng, 30 if thorough else 4, budget_s=120.0 if thorough else 25.0)
+    bad += hard.substitution_checks(hrng)
+    bad += hard.accuracy_checks(chk, hrng, 1500 if thorough else 60)
+    bad += hard.builder_checks(chk, hrng, 400 if thorough else 40)
     # what the real code does at the points the theorems guard against
     import numpy as np
 
@@ -721,6 +751,8 @@ PROP = T1Property(
     n_points={"quick": 16, "thorough": 200},
     n_search={"quick": 300, "thorough": 20000},
     rtol=1e-10,
+    expected_facts={"dpd_requests_consistent": True, "dpd_requests_in_domain": True,
+                    "index_types_and_call_order_irrelevant": True},
     trusted=(
         "tools/props/C19.py probe(): classification of each returned expression as 0 / acos X / -acos X "
         "(cross-checked in Lean by the *_kind_consistent theorems against the generic translation)",
@@ -730,15 +762,17 @@ PROP = T1Property(
 
 MANIFEST = {
     "technique": "Lean 4 theorems over definitions and case tables regenerated from the source (translator), "
-                 "Float-twin validation, independent four-momentum oracle (numpy + 50-digit mpmath)",
+                 "Float-twin validation, independent four-momentum oracle (numpy, 50-digit mpmath, exact rationals)",
     "design_ref": "DESIGN.md §3 C19",
     "text": (
         "Proof. All 16+16+64 outcomes of formulate_scattering_angle / formulate_theta_hat_angle / formulate_zeta_angle over "
-        "{0,1,2,3} are re-probed on every run (exceptions as an enum) and every returned expression is re-translated into Lean "
-        "(arccos argument and whole angle, Kallen as a function); 30 theorems are re-checked by the kernel. Unbounded in all real "
-        "arguments, universal over the index tuples: (structure) error domain of each function, theta-hat_{i(i)} = 0, "
+        "{0,1,2,3} are re-probed on every run (exceptions as an enum), every returned expression is re-translated into Lean "
+        "(arccos argument and whole angle, Kallen as a function), and the (rotated, aligned, reference) tuples that "
+        "helicity/align/dpd.py really requests are recorded as a table; 37 theorems + 3 facts are re-checked. Unbounded in all "
+        "real arguments, universal over the index tuples: (structure) error domain of each function, theta-hat_{i(i)} = 0, "
         "theta-hat_{i(j)} = -theta-hat_{j(i)}, zeta^0 = theta-hat, zeta^i_{k(0)} = zeta^i_{k(i)}, zeta^i_{k(k)} = 0, "
-        "zeta^i_{j(k)} = -zeta^i_{k(j)}, the whole zeta sign table equals the paper's convention, table/angle/cosine views agree; "
+        "zeta^i_{j(k)} = -zeta^i_{k(j)}, the whole zeta sign table equals the paper's convention, table/angle/cosine views agree, "
+        "dpd.py requests every (i, j, reference) with i in 0..3, j in 1..3 and each request is formulated; "
         "(range) for every arccos argument N/(sqrt(la) sqrt(lb)) the identity 4 m0^2 (la lb - N^2) = -c Kibble with c in "
         "{sigma_k, m0^2, m_i^2} (modulo sigma1+sigma2+sigma3 = sum m^2) gives |arg| <= 1 wherever the library's own Kibble "
         "function is <= 0, hence on every rest-frame event; (geometry) for ANY three four-vectors each cosine equals the covariant "
@@ -747,17 +781,29 @@ MANIFEST = {
         "of i in the (ij) frame (arccos of minus the cosine to the spectator); zeta^i_{j(k)} = angle in the rest frame of particle "
         "i between parent/sibling directions; theta_ij + theta_ji = pi for all i != j; (sum rule) zeta^i_{j(k)} = zeta^i_{j(l)} + "
         "zeta^i_{l(k)} for every i in {1,2,3} and every ordering (j,k,l) of {1,2,3}, as an identity between the returned arccos "
-        "expressions (cos, sin and range parts all proved) on the interior of the Dalitz region (Kibble <= 0, no vanishing Kallen "
-        "factor). Not proved: that every point with Kibble <= 0 inside the mass thresholds comes from an event (the converse is "
-        "proved); the sum rule on the boundary where a Kallen factor vanishes (the real code divides by zero there)."
+        "expressions (cos, sin and range parts all proved) wherever Kibble <= 0 and no Kallen factor vanishes, which includes the "
+        "collinear boundary Kibble = 0; (region) events in the parent rest frame satisfy Kibble <= 0 and conversely every point "
+        "with m0 > 0, the Mandelstam constraint, Kibble <= 0 and particle 1 not at rest is the set of invariant masses of an "
+        "explicit rest-frame event with energies (m0^2 + m_i^2 - sigma_i)/(2 m0) >= 0 inside the thresholds. Excluded, not "
+        "unproved: points where a Kallen factor vanishes exactly (pair at threshold, particle at rest) - the real code evaluates "
+        "0/0 there (nan after unfolding; 0 if numbers are substituted before unfolding, recorded in the evidence) and the sum "
+        "rule is false for Lean's totalised values. Oracle clauses on the real code in every run: all ordered tuples on float and "
+        "50-digit events incl. massless/equal masses and boundary-approaching points; exact rational events incl. points ON the "
+        "boundary (|cos| = 1 and angle in {0, pi, -pi} exactly), three substitution routes; identified/renamed mass symbols; "
+        "float64 accuracy of every arccos argument against 50 digits in units of a rounding model (limit 32, clean worst 2.4); "
+        "sympy/numpy integer indices and call order; the zeta definitions inside a real DPD-aligned HelicityModel (Lambda_c -> p K pi, "
+        "reference 1,2,3, with and without stable masses) evaluated on four-momentum arrays."
     ),
     "level_note": (
         "Trusted: Lean kernel + Mathlib (axioms propext, Classical.choice, Quot.sound); the sympy->Lean translator and the "
         "case-table probe (validated each run: Lean Float twin vs numpy on the real lambdified expressions, 100+ definitions; "
-        "table vs generic translation by the *_kind_consistent theorems); Lorentz invariance of the invariant masses (events "
-        "are taken in the relevant rest frames; the covariant forms hold in any frame). Lean's total functions: x/0 = 0 and "
-        "sqrt(negative) = 0, so the range theorems are trivially true where a Kallen factor is <= 0; the real code returns "
-        "nan/zoo there (recorded in the evidence as guard_probes). Floating-point evaluation of the lambdified code is "
-        "executed (oracle), not modelled; at |cos| = 1 rounding can push the real argument outside [-1,1] (not judged)."
+        "table vs generic translation by the *_kind_consistent theorems); the recorder that replaces the module-level name "
+        "formulate_zeta_angle in helicity/align/dpd.py; Lorentz invariance of the invariant masses (events are taken in the "
+        "relevant rest frames; the covariant forms hold in any frame). Lean's total functions: x/0 = 0 and sqrt(negative) = 0, "
+        "so the range theorems are trivially true where a Kallen factor is <= 0; the real code returns nan/zoo there (recorded "
+        "in the evidence as guard_probes / threshold_probe). Floating-point evaluation of the lambdified code is executed "
+        "(oracle, accuracy clause), not modelled; at |cos| = 1 rounding can push the real argument outside [-1,1] (not judged). "
+        "The builder path is exercised on one stored reaction (spins 1/2,1/2,0,0: rotated states 0 and 1 only); the other "
+        "rotated states are covered through the alignment generator directly."
     ),
 }
